@@ -45,6 +45,7 @@ type RandCase struct {
 	Chunks    []int           `json:"chunks"` // block layout of the sorted dictionary
 	Threshold int             `json:"threshold"`
 	Neigh     bool            `json:"neigh"`
+	Enc       string          `json:"enc,omitempty"` // "hex": tokens, pattern texts and range ends are hex (raw bytes)
 }
 
 var alphabets = []struct {
@@ -57,6 +58,7 @@ var alphabets = []struct {
 	{"utf8", []string{"a", "é", "è", "ж", "з", "日", "😀"}},
 	{"punct", []string{"a", "b", " ", "\"", "\\", ":", "-", "/", "\t"}},
 	{"numeric", nil},
+	{"rawbytes", rawLetters}, // incl. invalid UTF-8 and the ends of the byte order; such cases are hex-encoded
 }
 
 func genWord(t *rapid.T, letters []string, minLen, maxLen int, label string) string {
@@ -149,8 +151,15 @@ func genTokens(t *rapid.T, class int, n int) []string {
 	return out
 }
 
+// runes splits a string into its letters: runes, or single bytes if it is not valid UTF-8.
 func runes(s string) []string {
 	var out []string
+	if !utf8.ValidString(s) {
+		for i := 0; i < len(s); i++ {
+			out = append(out, s[i:i+1])
+		}
+		return out
+	}
 	for _, r := range s {
 		out = append(out, string(r))
 	}
@@ -340,15 +349,53 @@ func genRandom(t *rapid.T) RandCase {
 	c.Chunks = genChunks(t, len(c.Tokens))
 	c.Threshold = rapid.SampledFrom([]int{realBlockThreshold, 0, 9, 64, 1024}).Draw(t, "threshold")
 	c.Neigh = rapid.Bool().Draw(t, "neigh")
+	if c.Class == "rawbytes" {
+		c.Enc = encHex
+		c.Tokens = encStrings(c.Tokens)
+		for i := range c.Pats {
+			c.Pats[i] = encPattern(c.Pats[i])
+		}
+		for i := range c.Ranges {
+			c.Ranges[i] = encRange(c.Ranges[i])
+		}
+	}
 	return c
 }
 
 func runRandom(c RandCase) (evid.Result, error) {
 	res := evid.Result{}
-	for _, tk := range c.Tokens {
-		if !utf8.ValidString(tk) {
-			return res, fmt.Errorf("harness: token %q is not valid UTF-8 (cases must survive JSON)", tk)
+	if c.Enc == encHex {
+		var err error
+		if c.Tokens, err = decStrings(c.Enc, c.Tokens); err != nil {
+			return res, err
 		}
+		pats := make([]model.Pattern, len(c.Pats))
+		for i := range c.Pats {
+			if pats[i], err = decPattern(c.Enc, c.Pats[i]); err != nil {
+				return res, err
+			}
+		}
+		c.Pats = pats
+		ranges := make([]RangeQ, len(c.Ranges))
+		for i := range c.Ranges {
+			if ranges[i], err = decRange(c.Enc, c.Ranges[i]); err != nil {
+				return res, err
+			}
+		}
+		c.Ranges = ranges
+	} else {
+		for _, tk := range c.Tokens {
+			if !utf8.ValidString(tk) {
+				return res, fmt.Errorf("harness: token %q is not valid UTF-8 and the case is not hex-encoded (cases must survive JSON)", tk)
+			}
+		}
+	}
+	seenTok := map[string]bool{}
+	for _, tk := range c.Tokens {
+		if seenTok[tk] {
+			return res, fmt.Errorf("harness: token %q twice in the dictionary", tk)
+		}
+		seenTok[tk] = true
 	}
 	if c.Base == 0 {
 		c.Base = 1
@@ -375,6 +422,18 @@ func runRandom(c RandCase) (evid.Result, error) {
 		res.Labels = append(res.Labels, sh.class())
 		if sh.adjacent {
 			res.Labels = append(res.Labels, "adjacent-wildcards")
+		}
+		if prefixEndsFF(p) {
+			res.Labels = append(res.Labels, "prefix-ends-0xff")
+			for _, tk := range sorted {
+				if model.Glob(p, tk) {
+					res.Labels = append(res.Labels, "prefix-ends-0xff-and-matches")
+					break
+				}
+			}
+		}
+		if prefixEndsNUL(p) {
+			res.Labels = append(res.Labels, "prefix-ends-0x00")
 		}
 		for _, tk := range sorted {
 			if sh.trap(tk, model.Glob(p, tk)) {
